@@ -15,6 +15,6 @@ CONSTANTS
   IndexMode = "exact"
 VIEW view
 CONSTRAINT Bounded
-INVARIANTS TypeOK OneRecordPerRegistration IndexExact PostSweepExact ExpiredNeverMatchesAfterSweep
-PROPERTIES OnlyIngestAdds NeverRemovedEarly ValidMonotone
+INVARIANTS TypeOK
+PROPERTIES OnlyIngestAdds
 CHECK_DEADLOCK FALSE
